@@ -908,6 +908,8 @@ def all_masks(h, w):
         yield [list(bits[y * w:(y + 1) * w]) for y in range(h)]
 
 def gen_inputs(tier, rng):
+    if os.environ.get("C16_STREAMS") == "p3":      # development aid (mutation screening): the phase-3 streams alone, a SUBSET of the tier
+        yield from gen_phase3(tier, rng); return
     big = tier == "thorough"
     E = {"dirs": [], "files": []}
     smax = 6 if big else 4
@@ -1355,7 +1357,7 @@ SRC_K2 = ["list", "int", "f32", "fortran", "view", "sub", "reread_hdu", "full", 
 MSRC = ["list", "int", "float", "fortran", "invert", "self", "sub", "reread", "all_false"]
 SRC_A1 = [None, "list", "int", "f32", "view", "slim", "self", "sub", "reread_hdu", "full", "ones", "zeros"]
 MSRC1 = ["list", "int", "float", "invert", "sub", "reread", "all_false"]
-FOREIGN = ["int16", "int32", "int64", "float32", ">f8", "uint8"]
+FOREIGN = ["int16", "int64", "float32", "uint8", "int32", ">f8"]
 
 def kind_case2(src, kd, h, w, mask, j):
     """logical (vals, mask) of a 2-D object built the `src` way"""
@@ -1464,7 +1466,7 @@ def gen_phase3(tier, rng):
             if src != "fortran":
                 yield {"op": "util1", "flip": flip, "fs0": E, "arr": a2[0] + a2[1], "p": [10], "abs": False, "ow": False, "hd": [], "k": 0, "src": src, "again": [1, 11]}
     # 9f. FOREIGN files (integer / float32 / unsigned data, two HDUs): read through a refused write, every hdu index
-    for dt in FOREIGN:
+    for dt in (FOREIGN if big else FOREIGN[:4]):
         pos = dt == "uint8"
         d2 = [[3.0, 7.0, 2.0], [1.0, 0.0, 9.0]] if pos else [[3.0, -7.0, 2.0], [-1.0, 0.0, 9.0]]
         e2 = [[5.0, 4.0], [8.0, 6.0], [0.0, 1.0]]
@@ -1617,6 +1619,7 @@ def gen_phase3(tier, rng):
                        "kd": kd_, "kn": kn, "kp": kp, "abs": j % 3 == 0, "pk": [None, "Path"][j % 2]}
     yield {"op": "imghdus", "flip": False, "sc": [1.0, 1.0], "fs0": img_fs, "pd": [13], "pn": [1, 11], "pp": [12], "kd": 0, "kn": 0, "kp": 0, "abs": False}
     # 13. pixel-scale extremes and near ties
+    vals = content2(2, 3); mask = [[False, True, False], [False, False, False]]
     for sc in ([1e-8, 1e-8], [3e-9, 1e10], [12345.678, 12345.678], [0.5, 0.5000000000000001], [1.0, 0.9999999999999999], [1e10, 1e10], [2.0 ** -20, 2.0 ** -20]):
         for flip in (False, True):
             yield {"op": "hdu2", "flip": flip, "kd": "array", "vals": vals, "mask": mask, "sc": sc}
